@@ -30,6 +30,12 @@ var c20DBs = []int{0, 1, 2, 9, 10, 15, 123}
 
 func genC20(r *Rng, tier string, idx int) *Plan {
 	p := &Plan{Profile: "mem", Knobs: map[string]int64{}, SKnobs: map[string]string{}}
+	if idx%3 == 0 {
+		// connections in different databases issuing SELECT/SWAPDB/FLUSH*/data commands concurrently (dice-scheduled
+		// at keyspace, store-lock and connection-table-lock granularity): replies and the per-database dataset
+		// must be those of some serial order, i.e. no command reads or writes another connection's database
+		return genConnConc(r, tier, p)
+	}
 	if idx%2 == 1 {
 		p.Profile = "aof"
 		if idx%8 == 7 {
@@ -77,6 +83,9 @@ func perDB(st map[int]map[string]string) map[int]string {
 }
 
 func runC20(t *testing.T, p *Plan) *Outcome {
+	if p.Profile == "conn" {
+		return runConcCore(t, p, "C20")
+	}
 	o := &Outcome{Trivial: true}
 	var names []string
 	root := filepath.Join(scratchDir(), fmt.Sprintf("r%d", runCounter.Add(1)))
